@@ -282,6 +282,18 @@ func registerVerif(p *Program) {
 	p.reg("verif:verifImplies", func(e *Exec, g *G, a []Value) Value { return e.tc.Implies(a[0].(*Term), a[1].(*Term)) })
 	p.reg("verif:verifIteInt", func(e *Exec, g *G, a []Value) Value { return e.tc.Ite(a[0].(*Term), a[1].(*Term), a[2].(*Term)) })
 	p.reg("verif:verifRepeat", func(e *Exec, g *G, a []Value) Value { return e.tc.Const(64, 1) })
+	// verifClockAtLeast(t): time has passed until t (a blocked read ran into its deadline, the
+	// harness looks at the association later): every later reading of the clock is >= t
+	p.reg("verif:verifClockAtLeast", func(e *Exec, g *G, a []Value) Value {
+		_, ext := timeParts(a[0])
+		tc := e.tc
+		lo := tc.Const(64, 1<<40)
+		if e.clockLast != nil {
+			lo = e.clockLast
+		}
+		e.clockLast = tc.Ite(tc.Cmp(OSLT, lo, ext), ext, lo)
+		return nil
+	})
 	p.reg("verif:verifRecord", func(e *Exec, g *G, a []Value) Value {
 		t := a[1].(*Term)
 		if !t.IsConst() {
